@@ -93,10 +93,20 @@ def run(ctx, tag, U, vars_, pre, bbs, op, posts, split=(0, 0), conf_every=1, det
 
     preA = acc_pre(vars_)
 
+    mode = {"pin": False}
+
+    class RestartPinned(BaseException):
+        pass
+
     def body(o, owns):
         g = sg.SymDiGraph(o, U, vars_)
+        g.pin_types = mode["pin"]
         c = cg.Circuit(name="sym", graph=g, blackboxes=mkbbs())
         out = run_op(op, c)
+        if not mode["pin"] and out.kind == "raise" and out.exc in ("TypeError", "AttributeError"):
+            # the code under test may use a node type in a way only a real str supports (str methods, `x in "..."`):
+            # explore this case again with types handed out as plain strings (decided when read)
+            raise RestartPinned()
         if not owns():
             return
         ctx.count("paths")
@@ -166,7 +176,14 @@ def run(ctx, tag, U, vars_, pre, bbs, op, posts, split=(0, 0), conf_every=1, det
             if not same:
                 ctx.harness_error(f"E2 stand-in does not conform to real networkx in {tag}", dict(detail or {}, pre_state=spec_of(sg.real_state(sg.materialize(vars_, m, mkbbs()))), symbolic=[a, spec_of(sym_state)], real=[b, spec_of(real_state)]))
 
-    st = explore(pre, body, split_bits=split[0], split_index=split[1])
+    try:
+        st = explore(pre, body, split_bits=split[0], split_index=split[1])
+    except RestartPinned:
+        mode["pin"] = True
+        for k_ in ("paths", "conformance_replays"):
+            pass
+        ctx.count("cases_restarted_with_pinned_types")
+        st = explore(pre, body, split_bits=split[0], split_index=split[1])
     if stats.get("sample") and stats.get("best", 0) >= 6 and not any(isinstance(x, dict) and "decisions_on_this_path" in x for x in ctx.r["samples"]):
         ctx.r["samples"].insert(0, stats["sample"])
     ctx.count("decisions", st["decisions"])
